@@ -32,6 +32,7 @@ var verifDetermProgs = []verifDetermProg{
 		map[string]string{"a": "import inc from c;\npub fn fa() -> int { return inc(); }\n", "b": "import inc from c;\npub fn fb() -> int { return inc() * 10; }\npub fn fa() -> int { return 0; }\n", "c": "pub let cnt = 0;\npub fn inc() -> int { cnt += 1; return cnt; }\n"}},
 	{"same-named-functions", "import { e, f } from a;\nimport g from b;\nfn main() {\n  let h = f;\n  println(f(), g(), e(), h());\n}\n",
 		map[string]string{"a": "pub fn e() -> int { return 5; }\npub fn f() -> int { return 1; }\n", "b": "fn f() -> int { return 2; }\npub fn e() -> int { return 6; }\npub fn g() -> int { return f() * 10; }\n"}},
+	{"loops-in-several-functions", "fn total(xs: [int]) -> int {\n  let s = 0;\n  for i in xs { s += i; }\n  s\n}\nfn report(limit: int) {\n  let banner = \"== report ==\";\n  let extra = limit * 2;\n  for i in 0..limit { extra += i; }\n  println(banner, \"limit\", limit, extra);\n}\nfn third() -> int {\n  let a = 1;\n  let b = 2;\n  let c = 3;\n  for i in 0..2 { c += i; }\n  for j in [a, b] { c += j; }\n  a + b + c\n}\nfn main() {\n  println(total([1, 2, 3]));\n  report(3);\n  println(third());\n  for i in 0..2 { println(i); }\n}\n", nil},
 	{"list-of-objects", "fn main() {\n  let l = [new { k: 1, v: \"a\" }, new { k: 2, v: \"b\" }];\n  for o in l { println(o.k, o.v); }\n  println(l);\n}\n", nil},
 }
 
